@@ -384,3 +384,28 @@ package openflow13
 //@   ensures[C05 C04] (err == nil && class == 1 && field == 121) ==> typeis(msg, *Ipv4DstField)
 //@   ensures[C05 C04] (err == nil && class == 1 && field == 122) ==> typeis(msg, *Ipv6SrcField)
 //@   ensures[C05 C04] (err == nil && class == 1 && field == 123) ==> typeis(msg, *Ipv6DstField)
+
+// hello (section 7.5.1): a receiver skips unknown elements by their length rounded up to 8 and still sees what follows
+//@ func lemmaParseHelloUnknownThenBitmap(b) (message, err) [C04 C05]
+//@   inlinecalls
+//@   allowglobals
+//@   unroll 4
+//@   requires len(b) == 24 && u8(b, 0) == 4 && u8(b, 1) == 0 && be16(b, 2) == 24 && be16(b, 8) == 5 && be16(b, 10) >= 5 && be16(b, 10) <= 8 && be16(b, 16) == 1 && be16(b, 18) == 8
+//@   ensures[C04 C05] err == nil && typeis(message, *common.Hello) && len(message.(*common.Hello).Elements) == 1 && typeis(message.(*common.Hello).Elements[0], *common.HelloElemVersionBitmap)
+//@   ensures[C04 C05] err == nil ==> typeis(message, *common.Hello) && typeis(message.(*common.Hello).Elements[0], *common.HelloElemVersionBitmap) && len(message.(*common.Hello).Elements[0].(*common.HelloElemVersionBitmap).Bitmaps) == 1 && message.(*common.Hello).Elements[0].(*common.HelloElemVersionBitmap).Bitmaps[0] == be32(b, 20)
+
+// Nicira learn specs (nicira-ext.h NX_LEARN_*): 16-bit header = src:1 (bit 13) dst:2 (bits 11..12: 0 match, 1 load, 2 output)
+// n_bits:11; an immediate source occupies 2*ceil(n_bits/16) bytes, a field source or a destination 6 bytes (OXM header, offset)
+//@ also (*NXLearnSpecHeader).UnmarshalBinary(h, data) (err) [C04 C05]
+//@   ensures[C04 C05] err == nil ==> h.nBits == be16(data, 0) % 2048 && h.src == ((be16(data, 0) / 8192) % 2 == 1) && h.dst == ((be16(data, 0) / 2048) % 2 == 1) && h.output == ((be16(data, 0) / 4096) % 2 == 1)
+//@   ensures[C04 C05] len(data) >= 2 ==> err == nil
+
+//@ also (*NXLearnSpecField).UnmarshalBinary(f, data) (err) [C04 C05]
+//@   ensures[C04 C05] err == nil ==> f.Field != nil && f.Field.Class == be16(data, 0) && f.Field.Field == u8(data, 2) / 2 && f.Field.Length == u8(data, 3) && f.Ofs == be16(data, 4)
+
+//@ also (*NXLearnSpec).UnmarshalBinary(s, data) (err) [C04 C05]
+//@   ensures[C04 C05] err == nil ==> s.Header != nil && s.Header.nBits == be16(data, 0) % 2048 && s.Header.src == ((be16(data, 0) / 8192) % 2 == 1)
+//@   ensures[C04 C05] (err == nil && s.Header.src) ==> len(s.SrcValue) == 2 * ((int(s.Header.nBits) + 15) / 16) && bytes_eq(s.SrcValue, 0, data, 2, len(s.SrcValue))
+//@   ensures[C04 C05] (err == nil && !s.Header.src) ==> s.SrcField != nil && s.SrcField.Field.Class == be16(data, 2) && s.SrcField.Ofs == be16(data, 6)
+//@   ensures[C04 C05] (err == nil && !s.Header.output && s.Header.src) ==> s.DstField != nil && s.DstField.Field.Class == be16(data, 2 + 2 * ((int(s.Header.nBits) + 15) / 16)) && s.DstField.Ofs == be16(data, 6 + 2 * ((int(s.Header.nBits) + 15) / 16))
+//@   ensures[C04 C05] (err == nil && !s.Header.output && !s.Header.src) ==> s.DstField != nil && s.DstField.Field.Class == be16(data, 8) && s.DstField.Ofs == be16(data, 12)
